@@ -197,3 +197,124 @@ Proof.
   - constructor; intros; discriminate.
   - intros s0 t l st' H E. eapply sn_step_cfg; eassumption.
 Qed.
+
+(* ---- what a node retains ------------------------------------------------------------------ *)
+Record NL (st : state) (pre : list label) : Prop := {
+  nl1 : forall n nd k e k2 e2 m2, nth_error (nodes st) n = Some nd -> nlast nd = Some (eev e) -> nth_error (emits st) k = Some e ->
+        nth_error (emits st) k2 = Some e2 -> nth_error (emitters st) (eem e2) = Some m2 -> mnode m2 = n ->
+        lk_pc false (epc e2) (a_ok pre k2) -> a_rbs pre k k2 = false;
+  nl2 : forall j mj k0 e0 m0 nd, nth_error (emitters st) j = Some mj -> mstateful mj = true -> mnew mj = 4%nat -> mcl mj = C0 ->
+        nth_error (emits st) k0 = Some e0 -> nth_error (emitters st) (eem e0) = Some m0 -> mty m0 = mty mj ->
+        before_ pre (lab_is_ret (TEmNew j)) (lab_is_start (TEmit k0)) = true -> lk_pc false (epc e0) (a_ok pre k0) ->
+        nth_error (nodes st) (mnode mj) = Some nd -> nlast nd <> None }.
+
+(* a node of the new state, traced back *)
+Lemma node_back : forall st t l st' n nd', step st t = Some (l, st') -> nth_error (nodes st') n = Some nd' ->
+  (nlast nd' = None /\ keep nd' = false /\ (length (nodes st) <= n)%nat) \/
+  exists nd, nth_error (nodes st) n = Some nd /\
+    (nlast nd' = nlast nd \/
+     exists k e m, t = TEmit k /\ nth_error (emits st) k = Some e /\ epc e = ELock /\ nth_error (emitters st) (eem e) = Some m /\ mnode m = n /\
+                   holder nd = None /\ keep nd = true /\ nlast nd' = Some (eev e) /\ l = None).
+Proof.
+  intros st t l st' n nd' E Hn'. pose proof (kv_nth _ _ _ Hn') as X.
+  destruct (step_node_ev _ _ _ _ E) as [S|ty S|k e m nd Ht Ek Ep Em En Eh S|j m nd Ht Ej Em En S]; rewrite S in X.
+  - destruct (kv_inv _ _ _ X) as [nd [En Y]]. inversion Y. right. exists nd. split; [exact En|left; congruence].
+  - apply nth_error_app_inv in X. destruct X as [X|[Hl Y]].
+    + destruct (kv_inv _ _ _ X) as [nd [En Y]]. inversion Y. right. exists nd. split; [exact En|left; congruence].
+    + inversion Y. left. unfold kv in Hl. rewrite map_length in Hl. repeat split; auto. lia.
+  - apply nth_error_upd_inv in X. destruct X as [[-> [Y _]]|[N X]].
+    + inversion Y as [[Y1 Y2 Y3]]. right. exists nd. split; [exact En|]. destruct (keep nd) eqn:Kp; [|left; congruence].
+      right. exists k, e, m. split; [exact Ht|]. split; [exact Ek|]. split; [exact Ep|]. split; [exact Em|]. split; [reflexivity|]. split; [exact Eh|]. split; [reflexivity|].
+      split; [rewrite Y3; try rewrite Y2; try rewrite Kp; reflexivity|].
+      subst t. cbn [step] in E. unfold step_emit in E. rewrite Ek, Em, Ep, En, Eh in E. inversion E. reflexivity.
+    + destruct (kv_inv _ _ _ X) as [nd0 [En0 Y]]. inversion Y. right. exists nd0. split; [exact En0|left; congruence].
+  - apply nth_error_upd_inv in X. destruct X as [[-> [Y _]]|[N X]].
+    + inversion Y as [[Y1 Y2 Y3]]. right. exists nd. split; [exact En|left; congruence].
+    + destruct (kv_inv _ _ _ X) as [nd0 [En0 Y]]. inversion Y. right. exists nd0. split; [exact En0|left; congruence].
+Qed.
+
+(* locked after the step: locked before, or this step is the lock point *)
+Lemma locked_back : forall c s0 t l st' k2 e2' m2', cfg_wf c = true -> step (St c s0) t = Some (l, st') ->
+  nth_error (emits st') k2 = Some e2' -> nth_error (emitters st') (eem e2') = Some m2' -> lk_pc false (epc e2') (a_ok (Tr c s0 ++ olab l) k2) ->
+  exists e2 m2, nth_error (emits (St c s0)) k2 = Some e2 /\ nth_error (emitters (St c s0)) (eem e2) = Some m2 /\ eev e2 = eev e2' /\ mty m2' = mty m2 /\ mnode m2' = mnode m2 /\
+    mnew m2 = 4%nat /\ l <> Some (LStart (TEmit k2)) /\
+    (lk_pc false (epc e2) (a_ok (Tr c s0) k2) \/ (t = TEmit k2 /\ epc e2 = ELock /\ l = None)).
+Proof.
+  intros c s0 t l st' k2 e2' m2' W E Ek2' Em2' Hl. destruct (reach_cfg c s0 W) as [G _]. destruct (gV _ G) as [_ [_ [V3 _]]].
+  destruct (emitter_back _ _ _ _ _ _ E Em2') as [m2 [Em2 [Ty2 [Nd2 _]]]].
+  destruct (emit_back_pc _ _ _ _ _ _ E Ek2') as [[Ek2 Nk2]|[Tk2 [e2 [mx [p' [Ek2 [Emx [-> Mv]]]]]]]].
+  - assert (P0 : epc e2' <> E0) by (intros X; rewrite X in Hl; exact Hl).
+    assert (M4 : mnew m2 = 4%nat) by (apply (V3 k2 e2' m2 Ek2 P0 Em2)).
+    exists e2', m2. split; [exact Ek2|]. split; [exact Em2|]. split; [reflexivity|]. split; [exact Ty2|]. split; [apply Nd2; lia|]. split; [exact M4|].
+    split; [intros X; subst l; pose proof (vis_label_inv _ _ _ _ E) as [T _]; congruence|].
+    left. rewrite (ok_step_other _ l k2 (not_ret_label _ _ _ _ k2 E Nk2)) in Hl. exact Hl.
+  - cbn [eem e_pc epc eev] in *. rewrite Em2 in Emx. inversion Emx; subst mx.
+    destruct (lk_back _ _ _ _ _ _ _ (Tr c s0) Mv (move_not_ret c s0 k2 e2 m2 p' l W Ek2 Mv) Hl) as [X|X].
+    + assert (P0 : epc e2 <> E0) by (intros Y; rewrite Y in X; exact X).
+      assert (M4 : mnew m2 = 4%nat) by (apply (V3 k2 e2 m2 Ek2 P0 Em2)).
+      exists e2, m2. split; [exact Ek2|]. split; [exact Em2|]. split; [reflexivity|]. split; [exact Ty2|]. split; [apply Nd2; lia|]. split; [exact M4|]. split; [|left; exact X].
+      intros Y. subst l. inversion Mv; subst; try discriminate. apply P0. congruence.
+    + assert (M4 : mnew m2 = 4%nat) by (apply (V3 k2 e2 m2 Ek2); [congruence|exact Em2]).
+      exists e2, m2. split; [exact Ek2|]. split; [exact Em2|]. split; [reflexivity|]. split; [exact Ty2|]. split; [apply Nd2; lia|]. split; [exact M4|].
+      rewrite X in Mv. inversion Mv; subst. split; [discriminate|]. right. auto.
+Qed.
+
+Lemma nl_step_cfg : forall c s0 t l st', cfg_wf c = true -> NL (St c s0) (Tr c s0) -> step (St c s0) t = Some (l, st') -> NL st' (Tr c s0 ++ olab l).
+Proof.
+  intros c s0 t l st' W [N1 N2] E. destruct (reach_cfg c s0 W) as [G _]. destruct (gV _ G) as [V1 [_ [V3 _]]].
+  destruct (trok_cfg c s0 W) as [O TS TC]. pose proof (kp_cfg c s0 W) as [K1 K2 K3].
+  assert (NR : forall k e, nth_error (emits (St c s0)) k = Some e -> epc e = ELock -> o_returned (Tr c s0) (TEmit k) = false).
+  { intros k e Ek Ep. pose proof (obM _ _ O k (epc e)) as OM. unfold xM in OM. rewrite nth_error_map in OM. fold (St c s0) in OM. rewrite Ek in OM. specialize (OM eq_refl).
+    rewrite Ep in OM. cbn in OM. apply tstat_started in OM. apply OM. }
+  constructor.
+  - intros n nd' k e' k2 e2' m2' Hn' Hl Ek' Ek2' Em2' Hmn Hlk.
+    destruct (locked_back c s0 t l st' k2 e2' m2' W E Ek2' Em2' Hlk) as [e2 [m2 [Ek2 [Em2 [Ev2 [Ty2 [Nd2 [M42 [NS Hold]]]]]]]]].
+    destruct (emit_back_static _ _ _ _ _ _ E Ek') as [e [Ek [_ Ev]]].
+    destruct (a_rbs (Tr c s0 ++ olab l) k k2) eqn:Hr; [exfalso|reflexivity].
+    assert (Hr0 : a_rbs (Tr c s0) k k2 = true) by (destruct (rbs_step _ _ _ _ Hr) as [X|[X _]]; [exact X|contradiction]).
+    destruct (rbs_returned _ _ _ Hr0) as [Rk _].
+    destruct (node_back _ _ _ _ _ _ E Hn') as [[X _]|[nd [Hn [Same|[kl [el [ml [Tl [Ekl [Epl [Eml [Mnl [Hh [Kp [Hll Hnone]]]]]]]]]]]]]]]; [congruence| |].
+    + (* the retained event is the old one *)
+      destruct Hold as [Hold|[Tk2 [Ep2 _]]].
+      * rewrite (N1 n nd k e k2 e2 m2 Hn ltac:(congruence) Ek Ek2 Em2 ltac:(congruence) Hold) in Hr0. discriminate.
+      * (* k2 locks this very node now: then the retained event changes, unless keep is off *)
+        subst t. cbn [step] in E. unfold step_emit in E. fold (St c s0) in E. rewrite Ek2, Em2, Ep2 in E.
+        assert (Hq : mnode m2 = n) by congruence. rewrite Hq, Hn in E. destruct (holder nd); [discriminate|]. inversion E; subst l st'. cbn in Hn'. rewrite (nth_error_upd_eq _ _ _ _ Hn) in Hn'. inversion Hn'; subst nd'. cbn in Hl, Same.
+        destruct (keep nd) eqn:Kp; [|rewrite (K1 n nd Hn Kp) in Hl; discriminate].
+        inversion Hl as [Hv]. assert (k2 = k) by (eapply (Proofs_RCtx.ids_unique c s0); eauto; congruence). subst k2.
+        rewrite (NR k e2 Ek2 Ep2) in Rk. discriminate.
+    + (* the retained event was just written by the Emit at its lock point *)
+      assert (kl = k) by (eapply (Proofs_RCtx.ids_unique c s0); eauto; congruence). subst kl. rewrite (NR k el Ekl Epl) in Rk. discriminate.
+  - intros j mj' k0 e0' m0' nd' Ej' Ms' M4' Cl' Ek0' Em0' Ty Hb Hlk Hn'.
+    destruct (locked_back c s0 t l st' k0 e0' m0' W E Ek0' Em0' Hlk) as [e0 [m0 [Ek0 [Em0 [Ev0 [Ty0 [Nd0 [M40 [NS Hold]]]]]]]]].
+    destruct (emitter_back _ _ _ _ _ _ E Ej') as [mj [Ej [Tyj [Ndj [Lej Clj]]]]].
+    destruct (emitter_static _ _ _ _ _ _ _ E Ej Ej') as [_ Msj].
+    assert (Hb0 : before_ (Tr c s0) (lab_is_ret (TEmNew j)) (lab_is_start (TEmit k0)) = true).
+    { destruct (before_step _ _ _ _ Hb) as [X|[X _]]; [exact X|contradiction]. }
+    assert (M4 : mnew mj = 4%nat).
+    { destruct (before_true _ _ _ Hb0) as [R _]. fold (o_returned (Tr c s0) (TEmNew j)) in R.
+      pose proof (obE _ _ O j (mnew mj) (mnode mj) (mcl mj)) as OE. unfold wE in OE. rewrite nth_error_map in OE. fold (St c s0) in OE. rewrite Ej in OE.
+      destruct (OE eq_refl) as [OE1 _]. unfold tstat in OE1. fold (Tr c s0) in OE1. rewrite R in OE1.
+      destruct (mnew mj) as [|[|[|[|?]]]]; cbn in OE1; try discriminate. lia. }
+    rewrite Ndj in Hn' by lia.
+    destruct (K3 j mj Ej ltac:(congruence) ltac:(lia)) as [ndk [Hnk Kpk]].
+    destruct (node_back _ _ _ _ _ _ E Hn') as [[_ [_ X]]|[nd [Hn [Same|[kl [el [ml [Tl [Ekl [Epl [Eml [Mnl [Hh [Kp [Hll Hnone]]]]]]]]]]]]]]].
+    + assert ((mnode mj < length (nodes (St c s0)))%nat) by (apply (V1 _ mj Ej); lia). lia.
+    + rewrite Same. destruct Hold as [Hold|[Tk0 [Ep0 _]]].
+      * exact (N2 j mj k0 e0 m0 nd Ej ltac:(congruence) M4 (Clj Cl') Ek0 Em0 ltac:(congruence) Hb0 Hold Hn).
+      * (* k0 locks now: by the same-node invariant it locks this node, whose keep flag is set *)
+        pose proof (sn2 _ _ (sn_cfg c s0 W) j mj k0 e0 m0 Ej M4 (Clj Cl') Ek0 Em0 ltac:(congruence) Hb0 (or_introl Ep0)) as Hq.
+        subst t. cbn [step] in E. unfold step_emit in E. fold (St c s0) in E. rewrite Ek0, Em0, Ep0, Hq, Hn in E.
+        destruct (holder nd); [discriminate|]. inversion E; subst l st'. cbn in Hn'. rewrite (nth_error_upd_eq _ _ _ _ Hn) in Hn'. inversion Hn'; subst nd'. cbn in Same.
+        rewrite Hnk in Hn. inversion Hn; subst ndk. rewrite Kpk in Same. rewrite <- Same. discriminate.
+    + rewrite Hll. discriminate.
+Qed.
+
+Lemma nl_cfg : forall c s1, cfg_wf c = true -> NL (St c s1) (Tr c s1).
+Proof.
+  intros c s1 W. unfold St, Tr. apply (coupled_run_all NL).
+  - constructor; intros.
+    + destruct (cfg_wf_init c W) as [[[Hn _] _] _]. rewrite Hn in H. destruct n; discriminate.
+    + discriminate.
+  - intros s0 t l st' H E. eapply nl_step_cfg; eassumption.
+Qed.
